@@ -25,7 +25,7 @@ RULE = (
     "or an error class."
 )
 ASSUMPTIONS = ["inputs and outputs are disjoint; setup sites are not used as inputs (tawazi rejects setup nodes fed by DAG inputs)"]
-BUDGET = {"quick": {"shards": 4, "seconds": 40}, "thorough": {"shards": 16, "seconds": 420}}
+BUDGET = {"quick": {"shards": 8, "seconds": 40}, "thorough": {"shards": 16, "seconds": 420}}
 
 
 from ..dump import dump  # noqa: E402
